@@ -241,6 +241,19 @@ def streams(rng, tier):
         cand = [c for c in cases if "via" not in c and c.get("op") in ("bin", "un", "cmp", "red", "na") and len(c.get("a") or []) >= 2]
         for c in rng.sample(cand, min(len(cand), 300 if not thorough else 3000)):
             made.append(dict(c, origin=rng.choice(["promoted", "objnone", "objnone"])))
+    # a vector promoted in place, compared with / combined with operands of the kind it was BORN with (a datetime vector
+    # that began as dates against a plain date, floats that began as ints against an int ...)
+    born = {"dt": "date", "f": "int", "i": "bool", "c": "float"}
+    for name, cases in out[:-2]:
+        cand = [c for c in cases if "via" not in c and c.get("op") in ("cmp", "bin") and len(c.get("a") or []) >= 2
+                and c.get("form") != "vec_same" and "b" in c
+                and {t[0] for t in c["a"] if t[0] != "N"} and len({t[0] for t in c["a"] if t[0] != "N"}) == 1
+                and next(t[0] for t in c["a"] if t[0] != "N") in born]
+        for c in rng.sample(cand, min(len(cand), 150 if not thorough else 1500)):
+            pool = POOL[born[next(t[0] for t in c["a"] if t[0] != "N")]]
+            b = c["b"]
+            nb = rng.choice(pool) if (b and not isinstance(b[0], list)) else [["N"] if t[0] == "N" else rng.choice(pool) for t in b]
+            made.append(dict(c, b=nb, origin="promoted"))
     out.append(("write-made", made))     # ... and on operands promoted in place / object vectors with None assigned later
     # ---- per-group aggregates: every None placement x how the rows fall into groups (one group, one row per group,
     # pairs, alternating), through aggregate and through window.  Decided by the oracle alone (the reference is Python's
